@@ -3,6 +3,7 @@ CONSTANTS
   MaxPieces = 2
   MaxPhrase = 2
   MaxTmpl = 0
+  MaxDeep = 0
   Hosts = {"out", "assign", "if", "unless", "for", "tablerow", "when", "case", "cycle", "include", "render", "increment", "capture", "break", "ifchanged"}
   EmitAll = TRUE
 INVARIANTS Emit
